@@ -43,12 +43,23 @@ Section C19.
   Hypothesis bounds_ordered : forall p, let '(x1, y1, x2, y2) := sk_bounds sk p in (x1 <= x2 /\ y1 <= y2)%R.
   Hypothesis rect_interior : forall (r : Rct) pt,
     inside (as_cmd_seq RMath (rect_path r)) NonZero pt <-> in_rect_open r (Point_x pt) (Point_y pt).
+  Hypothesis empty_no_interior : forall r pt, ~ inside [] r pt.
 
-  Theorem C19_dropped_shape_had_nothing_inside (vb : Rct) (sh : shapeR) r :
+  (* a shape disappears only when nothing of it is inside the viewBox: its box misses the viewBox, or (fix 413baa0) the box
+     reaches in but the intersection is empty *)
+  Theorem C19_dropped_shape_had_nothing_inside (vb : Rct) (sh : shapeR) r bbox :
     (0 <= Rect_w vb)%R -> (0 <= Rect_h vb)%R ->
+    rule_of_string (s_fill_rule sh) = Some r -> shape_bbox RMath sk sh = Ok bbox ->
     clip_shape RMath sk vb sh = Ok None ->
-    forall pt, ~ (shape_inside inside sh r pt /\ in_rect_open vb (Point_x pt) (Point_y pt)).
-  Proof. exact (clip_shape_dropped inside sk bounds_contract vb sh r). Qed.
+    (forall pt, ~ (shape_inside inside sh r pt /\ in_rect_open vb (Point_x pt) (Point_y pt))) \/
+    (forall pt, ~ (inside (as_cmd_seq RMath (absolute (s_d sh))) r pt /\
+                   in_rect_open vb (Point_x pt) (Point_y pt) /\ in_rect_open bbox (Point_x pt) (Point_y pt))).
+  Proof. exact (clip_shape_dropped inside sk op_contract simplify_contract bounds_contract bounds_ordered rect_interior empty_no_interior vb sh r bbox). Qed.
+
+  (* a shape that stays has geometry *)
+  Theorem C19_kept_shape_has_geometry (vb : Rct) (sh sh' : shapeR) :
+    clip_shape RMath sk vb sh = Ok (Some sh') -> sh' = sh \/ s_d sh' <> [].
+  Proof. exact (clip_shape_kept_nonempty sk vb sh sh'). Qed.
 
   Theorem C19_kept_shape_is_cut_at_the_border (vb : Rct) (sh sh' : shapeR) r bbox :
     (0 <= Rect_w vb)%R -> (0 <= Rect_h vb)%R ->
@@ -63,5 +74,5 @@ Section C19.
 End C19.
 
 Definition C19_all := (C19_rect_intersection_is_overlap, C19_rect_intersection_none_iff_no_area, C19_rect_union_is_least_box,
-  C19_dropped_shape_had_nothing_inside, C19_kept_shape_is_cut_at_the_border).
+  C19_dropped_shape_had_nothing_inside, C19_kept_shape_has_geometry, C19_kept_shape_is_cut_at_the_border).
 Print Assumptions C19_all.
